@@ -179,6 +179,9 @@ type FX struct {
 	bound     map[ssa.Value]bool
 	inCall    int
 	entryRefs map[string]bool
+	rngPos    T
+	rngPos0   T
+	rngReads  int
 	cuts      []cutPoint
 	assertsSeen map[string]bool
 	lineMeta []lineInfo
@@ -722,6 +725,19 @@ func (fx *FX) defVal(hint string, t types.Type, v Val) Val {
 // ---------------------------------------------------------------------------
 // driver
 
+func (fx *FX) initMaps() {
+	fx.kindN = map[string]int{}
+	fx.bnd = map[string][2]*big.Int{}
+	fx.tz = map[string]uint{}
+	fx.knownFresh = map[string]bool{}
+	fx.nonNil = map[string]bool{}
+	fx.params = map[string]Val{}
+	fx.lets = map[string]Val{}
+	fx.privByRef = map[string]*ssa.Alloc{}
+	fx.entryRefs = map[string]bool{}
+	fx.strLits = map[string]T{}
+}
+
 func (fx *FX) run() {
 	fn := fx.fn
 	fx.vals = map[ssa.Value]Val{}
@@ -755,6 +771,9 @@ func (fx *FX) run() {
 	st.Frozen = st.Pooled
 	fx.entry = st.clone()
 	fx.assume(tTrue, not(sel(st.Alloc, num(0))))
+	fx.rngPos0 = fx.fresh("rngpos0", SInt)
+	fx.assume(tTrue, ge(fx.rngPos0, num(0)))
+	fx.rngPos = fx.rngPos0
 
 	// parameters and free variables
 	for i, p := range fn.Params {
@@ -1310,10 +1329,59 @@ func (fx *FX) enterLoop(li *loopInfo, h *ssa.BasicBlock, conds []T, sts []*State
 			li.splits = append(li.splits, sc)
 		}
 	}
-	if li.lc == nil || li.lc.Decreases == nil {
+	if (li.lc == nil || li.lc.Decreases == nil) && fx.mapRangeLoop(li) {
+		fx.note("loop %d ranges over a map that is not modified in the loop: it terminates by the semantics of range (each key at most once)", li.ordinal)
+	} else if li.lc == nil || li.lc.Decreases == nil {
 		// termination is an obligation of every loop: without a measure it cannot be discharged
 		fx.oblige("variant", fmt.Sprintf("loop%d.missing", li.ordinal), st.PC, tFalse, h.Instrs[0].Pos(), "loop has no decreases clause")
 	}
+}
+
+// mapRangeLoop: the loop is a `for range m` over a map whose iterator is created outside the loop
+// and the loop body neither updates nor deletes from a map.
+func (fx *FX) mapRangeLoop(li *loopInfo) bool {
+	isRange := false
+	for _, in := range li.header.Instrs {
+		if nx, ok := in.(*ssa.Next); ok && !nx.IsString {
+			if r, ok := nx.Iter.(*ssa.Range); ok && !li.body[r.Block()] {
+				if _, isMap := r.X.Type().Underlying().(*types.Map); isMap {
+					isRange = true
+				}
+			}
+		}
+	}
+	if !isRange {
+		return false
+	}
+	// the loop must be controlled by the iterator: header branches on the extracted ok
+	for b := range li.body {
+		for _, in := range b.Instrs {
+			switch x := in.(type) {
+			case *ssa.MapUpdate:
+				_ = x
+				// updating a different, locally created map is fine; the ranged map must be a different value
+				if rg := fx.rangedMap(li); rg != nil && x.Map == rg {
+					return false
+				}
+			case ssa.CallInstruction:
+				if bi, ok := x.Common().Value.(*ssa.Builtin); ok && bi.Name() == "delete" {
+					return false
+				}
+			}
+		}
+	}
+	return true
+}
+
+func (fx *FX) rangedMap(li *loopInfo) ssa.Value {
+	for _, in := range li.header.Instrs {
+		if nx, ok := in.(*ssa.Next); ok {
+			if r, ok := nx.Iter.(*ssa.Range); ok {
+				return r.X
+			}
+		}
+	}
+	return nil
 }
 
 func (fx *FX) phiRoots(phi *ssa.Phi, seen map[*ssa.Phi]bool) []ssa.Value {
